@@ -46,6 +46,12 @@ def single_edits(desc, rng):
                     r['min'], r['max'] = mn, mx
                     out.append((f'cardinality [{mn}..{mx}]', d))
                     break
+            # the unbounded maximum ('*', stored as -1) is a cardinality of its own: it differs from every listed maximum
+            if r0['max'] != -1:
+                d = copy.deepcopy(desc)
+                r = d_features(d)[i][0]['relations'][j]
+                r['max'] = -1
+                out.append((f"cardinality [{r0['min']}..*]", d))
             # re-group: move the last member of this relation into a new relation of the same parent
             if n >= 2:
                 d = copy.deepcopy(desc)
